@@ -46,6 +46,17 @@ fn cases_special(_rng: &mut Rng, sink: &mut dyn FnMut(J) -> bool) {
             return;
         }
     }
+    // a user claim named `_sd_alg` at the top level (and nested, where it is an ordinary claim)
+    let mut alg_n = 0usize;
+    for v in [json!("sha3-512"), json!("sha-256"), json!("md5"), json!(7), json!({"alg": "sha-512"}), json!(null), json!(["sha-256"])] {
+        let claims = std(json!({"sub": "s", "_sd_alg": v, "o": {"_sd_alg": "nested", "k": 1}}));
+        for s in [Strategy::NoSD, Strategy::Custom(vec!["$.sub".into()]), Strategy::Custom(vec!["$.o._sd_alg".into()]), Strategy::Custom(vec!["$._sd_alg".into()]), Strategy::TopLevel, Strategy::AllLevels] {
+            alg_n += 1;
+            if !sink(Cfg::simple(claims.clone(), s).variant(alg_n).to_json()) {
+                return;
+            }
+        }
+    }
     // a user-supplied top-level cnf, with and without a holder key, visible and hidden
     let mut cnf_n = 0usize;
     for cnf in [json!({"jwk": {"kty": "oct", "k": "dXNlci1jbmY"}}), json!("user-cnf-string"), json!({"kid": "user-key-7", "x": [1]}), json!(7), json!(null)] {
@@ -202,6 +213,22 @@ pub fn check(case: &J) -> Verdict {
     }
     let Some(payload) = parts.payload() else { return fail("payload is not a JSON object", "JSON object") };
     let cnf = cfg.holder.as_deref().map(keys::holder_jwk_json);
+    // a user claim that happens to be called `_sd_alg` (top level) cannot keep its place: the
+    // signed payload's `_sd_alg` says sha-256 whatever the user supplied
+    let mut cfg = cfg;
+    if cfg.claims.get("_sd_alg").is_some() {
+        if payload.get("_sd_alg") != Some(&json!("sha-256")) {
+            return fail(
+                format!("payload `_sd_alg` is {} (user claims carry a member named `_sd_alg`, strategy {})", payload.get("_sd_alg").map(jstr).unwrap_or("absent".into()), jstr(&cfg.strategy.to_json())),
+                "`_sd_alg` says sha-256 in the signed payload",
+            );
+        }
+        if cfg.strategy.designated(&[Seg::Key("_sd_alg".into())]) {
+            return Verdict::Pass;
+        }
+        // left in clear by the strategy: its slot is the marker's; everything else as usual
+        cfg.claims.as_object_mut().unwrap().shift_remove("_sd_alg");
+    }
     if let Err(e) = check_issued(&cfg.claims, &cfg.strategy, &payload, &parts.disclosures, cfg.decoys, cnf.as_ref()) {
         return fail(
             format!("{e}; payload = {}; disclosures = {}", short(&jstr(&J::Object(payload.clone())), 500), short(&jstr(&json!(parts.disclosures.iter().map(|d| crate::util::decode_disclosure(d).unwrap_or(J::Null)).collect::<Vec<_>>())), 500)),
@@ -214,6 +241,8 @@ pub fn check(case: &J) -> Verdict {
     if cfg.holder.is_some() && !user_cnf_visible {
         payload.shift_remove("cnf");
     }
+    // nor is the hash-algorithm marker
+    payload.shift_remove("_sd_alg");
     if let Some(l) = leak_check(&cfg, &jstr(&J::Object(payload))) {
         return fail(l, "a hidden claim's name and value occur nowhere in the payload");
     }
